@@ -337,6 +337,16 @@ func runC10(r *R) {
 				}
 			}
 		}
+		// the escape function encodes exactly one byte (byte(seq[0])): the class must not match multi-byte runes
+		oneByte := true
+		if re, err := syntax.Parse(encLit, syntax.Perl); err == nil && re.Op == syntax.OpCharClass {
+			for i := 1; i < len(re.Rune); i += 2 {
+				if re.Rune[i] > 0x7f {
+					oneByte = false
+				}
+			}
+		}
+		r.addS("C10-R1", arv+".manifestEscape", "escaped class is single-byte", "-", okIf(oneByte), "every rune the class matches is one byte long, which is all manifestEscapeFunc encodes (a class reaching above 0x7f would match multi-byte UTF-8 characters and their continuation bytes would be dropped)")
 		if !okS || !okF {
 			r.addS("C10-R1", arv+".manifestEscape", "escaped byte set", "-", Undecided, "regex literal is not a single character class / has no literal start")
 		} else {
@@ -507,6 +517,51 @@ func runC10(r *R) {
 		} else {
 			r.Check(okStrict, "C10-R5", fn, "hi = i", fn.Pos(), "upper half discarded only under a strict comparison with the probed block's bounds",
 				"the upper half is discarded when rangeStart == blockStart: with an interior zero-length block (offsets …,5,5,…) the block that really contains the position is skipped, firstBlock returns -1 and the caller panics on a valid manifest")
+		}
+	}
+
+	// ---- R7
+	r.Rule("C10-R7", "loadManifest: per-stream state (block cursor pos/segIdx, anyFileTokens) is re-initialised for every stream; the only state carried across streams is the index, dirname and the explicitly reset block list", 1)
+	if fn := r.NeedFn("C10-R7", "(*"+arv+".dirnode).loadManifest"); fn != nil {
+		// outer loop: the rangeindex loop whose body contains the call to createFileAndParents and which is not nested in another loop
+		var outer *ssa.BasicBlock
+		for _, c := range CallsIn(fn, "(*"+arv+".dirnode).createFileAndParents") {
+			for h := loopHeaderOf(c.Block()); h != nil; h = loopHeaderOf(h.Idom()) {
+				outer = h
+				if h.Idom() == nil {
+					break
+				}
+			}
+		}
+		if outer == nil {
+			r.Und("C10-R7", fn, "per-stream loop", fn.Pos(), "not found")
+		} else {
+			var carried []string
+			okSegReset := false
+			for _, in := range outer.Instrs {
+				p, ok := in.(*ssa.Phi)
+				if !ok {
+					continue
+				}
+				switch p.Comment {
+				case "rangeindex", "dirname":
+				case "segments":
+					// must be re-sliced to length 0 at the top of the body
+					for _, ref := range *p.Referrers() {
+						if sl, ok := ref.(*ssa.Slice); ok && sl.High != nil {
+							if h, _ := ConstInt(sl.High); h == 0 && loopHeaderOf(sl.Block()) == outer {
+								okSegReset = true
+							}
+						}
+					}
+					if !okSegReset {
+						carried = append(carried, "segments (not reset)")
+					}
+				default:
+					carried = append(carried, p.Comment)
+				}
+			}
+			r.Check(len(carried) == 0, "C10-R7", fn, "state carried across streams", outer.Instrs[0].Pos(), "only index, dirname and the reset block list", "per-stream state leaks into the next stream: "+strings.Join(carried, ", ")+" — a later stream whose first file token starts at a non-zero offset is mapped to the wrong block or rejected")
 		}
 	}
 
